@@ -30,6 +30,29 @@ VERIF = os.path.dirname(os.path.dirname(os.path.abspath(__file__)))
 _REF = None
 
 
+_REFC = None
+
+
+def reference_consts():
+    global _REFC
+    if _REFC is None:
+        p = os.path.join(VERIF, "spec", "reference_consts.json")
+        _REFC = json.load(open(p)) if os.path.exists(p) else {}
+    return _REFC
+
+
+def fold_new_consts(h, values):
+    """A constant the reference tree does not have is a name for its value: `const NO_CHANGE: u8 = 0` used as `NO_CHANGE` (in an
+    expression or as a pattern) is the literal 0."""
+    def fn(n):
+        if n.get("k") in ("def", "ppath") and n.get("path") in values:
+            v = values[n["path"]]
+            t = "bool" if isinstance(v, bool) else "int" if isinstance(v, int) else "str"
+            return {"k": "lit", "t": t, "v": v, "ln": n.get("ln"), "ty": n.get("ty"), "norm": "const:" + n["path"]}
+        return n
+    return map_tree(h, fn)
+
+
 def reference():
     global _REF
     if _REF is None:
@@ -690,9 +713,18 @@ def normalise_crate(name, crate):
     for b in bodies:
         b["hir_raw"] = b["hir"]
     inl = Inliner(name, bodies, known) if known is not None else None
+    refc = reference_consts().get(name)
+    newc = {}
+    if refc is not None:
+        for it in crate.get("items", []):
+            if it.get("dk") in ("Const", "AssocConst") and it["path"] not in refc and isinstance(it.get("value"), (int, bool, str)):
+                newc[it["path"]] = it["value"]
+    crate["folded_consts"] = sorted(newc)
     for b in bodies:
         ids = Ids(1_000_000)
         h = copy.deepcopy(b["hir_raw"])
+        if newc:
+            h = fold_new_consts(h, newc)
         h = map_tree(h, _int_from)
         h = map_tree(h, _then_some)
         h = map_tree(h, _try_for_each(ids))
